@@ -27,7 +27,7 @@
 #ifndef ARGMAXLEN
 #define ARGMAXLEN 5
 #endif
-#define LMAX (MSGMAX + 2)
+#define LMAX MSGMAX   /* the configured maximum is REACHED by the longest symbolic message (seed C04-c2: boundary at strlen == max) */
 
 struct in_t {
     char msg[MSGMAX + 1];
